@@ -114,8 +114,12 @@ def parse_desc(toks):
     return Node("c", None, [blocks])
 
 
+QUERIES = {}            # event index -> the answers of the container handle inside that callback (filled by parse_log)
+
+
 def parse_log(toks):
     """event tokens -> list of (tag, ident)"""
+    QUERIES.clear()
     evs = []
     i = 0
     while i < len(toks):
@@ -125,7 +129,10 @@ def parse_log(toks):
             i += 1
         elif t in ("@bs", "@be", "@fs", "@fe"):
             evs.append((t[1:], toks[i + 1]))
-            i += 2
+            if i + 2 >= len(toks) or not toks[i + 2].startswith("q:"):
+                raise ValueError("container callback without the answers of its handle at %d" % i)
+            QUERIES[len(evs) - 1] = toks[i + 2]
+            i += 3
         elif t in ("@ls", "@le"):
             n = int(toks[i + 2])
             names = [norm_name(unhexs(x)) for x in toks[i + 3:i + 3 + n]]
@@ -226,7 +233,45 @@ class Checker:
                 return "sib"
         return "go"
 
+    def check_handle(self, nd, k):
+        """'Handles passed to callbacks are valid for queries during the callback': what the container handle of callback `k`
+        answered, against the CIF that was built (independent of the implementation's enumeration orders)"""
+        q = QUERIES.get(k)
+        if q is None:
+            raise Bad("invocation %d: no answers of the container handle logged" % k)
+        f = q.split(":")
+        if len(f) != 6:
+            raise Bad("invocation %d: unreadable handle answers %r" % (k, q))
+        _, ab, nf, nl, cf, il = f
+        what = "data block" if nd.kind == "b" else "save frame"
+        want_ab = 0 if nd.kind == "b" else 6            # CIF_OK / CIF_ARGUMENT_ERROR
+        if int(ab) != want_ab:
+            raise Bad("invocation %d: cif_container_assert_block on the handle of %s %s answers %s, expected %d"
+                      % (k, what, nd.ident, ab, want_ab))
+        frames, loops = nd.groups
+        if int(nf) != len(frames) or int(nl) != len(loops):
+            raise Bad("invocation %d: the handle of %s %s lists %s frames / %s loops, the CIF has %d / %d"
+                      % (k, what, nd.ident, nf, nl, len(frames), len(loops)))
+        if frames:
+            rc, _, code = cf.partition(",")
+            if rc != "0" or code not in [fr.ident for fr in frames]:
+                raise Bad("invocation %d: cif_container_get_frame through the handle of %s %s: %s (a frame of it expected)"
+                          % (k, what, nd.ident, cf))
+        elif cf != "-":
+            raise Bad("invocation %d: frame look-up %r on a container without frames" % (k, cf))
+        if loops and il != "-":
+            name, rc, cat = il.split(",")
+            nm = norm_name(unhexs(name))
+            owner = [l for l in loops if nm in l.ident[1]]
+            if rc != "0" or len(owner) != 1 or owner[0].ident[0] != cat:
+                raise Bad("invocation %d: cif_container_get_item_loop(%s) through the handle of %s %s: %s, the CIF says %s"
+                          % (k, name, what, nd.ident, il, [l.ident[0] for l in owner]))
+        elif loops or il != "-":
+            raise Bad("invocation %d: item look-up %r does not fit the loops of %s %s" % (k, il, what, nd.ident))
+
     def visit(self, nd):
+        if nd.kind in ("b", "f"):
+            self.check_handle(nd, self.k)
         r = self.take()
         if nd.kind == "it":
             return "sib" if r == SKIP_SIB else "go"
@@ -241,6 +286,8 @@ class Checker:
                     # frames: the loops are not siblings of the frames, so the next group is still due
         endev = (ENDT[nd.kind], nd.ident)
         if self.peek() == endev:
+            if nd.kind in ("b", "f"):
+                self.check_handle(nd, self.k)
             r2 = self.take()
             if r2 == SKIP_SIB:
                 sib = True
